@@ -16,6 +16,19 @@ _sink_path = os.environ.get("OPENCYPHAL_PYDSDL_VERIF_TRACE", "") if ENABLED else
 _MAX_BUFFER = 2_000_000
 
 
+def num(n: int) -> str:
+    """Decimal text of an integer; hexadecimal beyond the interpreter's limit on decimal conversion (observation must not raise)."""
+    return str(n) if abs(n).bit_length() < 12000 else hex(n)
+
+
+def text(x: typing.Any) -> str:
+    """str(x); the lower-case class name if rendering fails (e.g., a number too long to render in decimal)."""
+    try:
+        return str(x)
+    except ValueError:
+        return type(x).__name__.lower()
+
+
 def emit(ev: str, **fields: typing.Any) -> None:
     global _seq
     _seq += 1
@@ -24,8 +37,12 @@ def emit(ev: str, **fields: typing.Any) -> None:
     if len(_events) < _MAX_BUFFER:
         _events.append(rec)
     if _sink_path:
+        try:
+            line = json.dumps(rec, default=str)
+        except ValueError:  # A number too long to render in decimal: the event stays in memory only.
+            return
         with open(_sink_path, "a", encoding="utf8") as f:
-            f.write(json.dumps(rec, default=str) + "\n")
+            f.write(line + "\n")
 
 
 def drain() -> typing.List[typing.Dict[str, typing.Any]]:
